@@ -135,7 +135,7 @@ proof {
 }
 @end
 
-@raw
+@raw root
 verus! {
 /// slot size write_piece asks for when storing a key record (the estimate uses the un-scaled offsets)
 pub open spec fn key_need(key: Seq<u8>, voff: nat, next: nat) -> nat {
